@@ -176,6 +176,12 @@ func (m *ConsensusManager) handleEnterRound(ctx context.Context, req EnterRoundR
 func (m *ConsensusManager) handleConsiderPBs(ctx context.Context, req ConsiderProposedBlocksRequest) {
 	defer trace.StartRegion(ctx, "handleConsiderPBs").End()
 
+	if req.Result == nil {
+		// The state machine has already made (or reloaded) this round's choice,
+		// so there is nobody to give the strategy's answer to.
+		return
+	}
+
 	hash, err := m.strat.ConsiderProposedBlocks(ctx, req.PHs, req.Reason)
 	if err == tmconsensus.ErrProposedBlockChoiceNotReady {
 		// Don't bother with a send if we aren't choosing yet.
@@ -188,12 +194,24 @@ func (m *ConsensusManager) handleConsiderPBs(ctx context.Context, req ConsiderPr
 func (m *ConsensusManager) handleChoosePB(ctx context.Context, req ChooseProposedBlockRequest) {
 	defer trace.StartRegion(ctx, "handleChoosePB").End()
 
+	if req.Result == nil {
+		// The state machine has already made (or reloaded) this round's choice,
+		// so there is nobody to give the strategy's answer to.
+		return
+	}
+
 	hash, err := m.strat.ChooseProposedBlock(ctx, req.PHs)
 	m.sendHashSelection(req.Result, HashSelection{Hash: hash, Err: err}, "ChooseProposedBlock")
 }
 
 func (m *ConsensusManager) handleDecidePrecommit(ctx context.Context, req DecidePrecommitRequest) {
 	defer trace.StartRegion(ctx, "handleDecidePrecommit").End()
+
+	if req.Result == nil {
+		// The state machine has already made (or reloaded) this round's choice,
+		// so there is nobody to give the strategy's answer to.
+		return
+	}
 
 	hash, err := m.strat.DecidePrecommit(ctx, req.VS)
 	m.sendHashSelection(req.Result, HashSelection{Hash: hash, Err: err}, "DecidePrecommit")
